@@ -450,9 +450,11 @@ class InProtocolBase(ProtocolMixin):
         if match is None:
             match = cls._offset_re.match(string)
             if match:
-                tz_hr, tz_min = [int(match.group(x))
-                                                   for x in ("tz_hr", "tz_min")]
-                tz = FixedOffset(tz_hr * 60 + tz_min, {})
+                tz_hr, tz_min = [match.group(x) for x in ("tz_hr", "tz_min")]
+                tz_offset = abs(int(tz_hr)) * 60 + int(tz_min)
+                if tz_hr.startswith('-'):
+                    tz_offset = -tz_offset
+                tz = FixedOffset(tz_offset, {})
                 retval = _parse_datetime_iso_match(match, tz=tz)
                 if astz is not None:
                     retval = retval.astimezone(astz)
